@@ -180,7 +180,35 @@ type callObs struct {
 	Panic      string
 }
 
-func (c16) Exec(pj json.RawMessage, tape *simrt.Tape, keepLog bool) harness.RunOut {
+// daemonsLeft: a bubble ended with its main goroutine finished -- every
+// WaitTimeout call returned, every event goroutine was joined -- while other
+// goroutines stayed blocked. Those belong to the implementation (a lazily
+// started reaper, a per-cond helper): the property does not forbid them, but
+// channels and timers they hold are tied to the finished bubble, so this OS
+// process is of no further use and a fresh one continues.
+var daemonsLeft bool
+
+func bubblePanic(msg string) (stuck string) {
+	if strings.Contains(msg, "main bubble goroutine has exited") {
+		daemonsLeft = true
+		return ""
+	}
+	return msg
+}
+
+func (c c16) Exec(pj json.RawMessage, tape *simrt.Tape, keepLog bool) harness.RunOut {
+	out := c.exec(pj, tape, keepLog)
+	if daemonsLeft {
+		out.Tainted, out.Restart = true, true
+		if out.Probes == nil {
+			out.Probes = map[string]int{}
+		}
+		out.Probes["bubble_left_daemons"]++
+	}
+	return out
+}
+
+func (c16) exec(pj json.RawMessage, tape *simrt.Tape, keepLog bool) harness.RunOut {
 	var p WTPlan
 	if err := json.Unmarshal(pj, &p); err != nil {
 		return harness.RunOut{Infra: err.Error()}
@@ -206,7 +234,7 @@ func (c16) Exec(pj json.RawMessage, tape *simrt.Tape, keepLog bool) harness.RunO
 	func() {
 		defer func() {
 			if r := recover(); r != nil {
-				stuck = fmt.Sprint(r)
+				stuck = bubblePanic(fmt.Sprint(r))
 			}
 		}()
 		synctest.Test(theT, func(t *testing.T) {
@@ -563,6 +591,9 @@ func execPerturb(p *WTPlan, pj []byte, keepLog bool) harness.RunOut {
 				}
 			}
 		}
+		if daemonsLeft {
+			break // the implementation's daemons are tied to the first bubble
+		}
 		v, log := perturbOnce(p, script)
 		out.Probes["perturb_bubbles"]++
 		if keepLog {
@@ -600,7 +631,7 @@ func perturbOnce(p *WTPlan, script []uint8) (*harness.Violation, []string) {
 		var r res
 		defer func() {
 			if x := recover(); x != nil {
-				r.stuck = fmt.Sprint(x)
+				r.stuck = bubblePanic(fmt.Sprint(x))
 			}
 			done <- r
 		}()
